@@ -61,7 +61,7 @@ def build(mode, bin="lruverif"):
         fcntl.flock(lk, fcntl.LOCK_EX)
         t0 = time.time()
         if mode == "miri":
-            cmd = ["cargo", "+nightly", "miri", "run", "--offline", "--bin", "lruverif", "--features", "noarena", "--target-dir", target_dir("miri"), "--", "selfcheck"]
+            cmd = ["cargo", "+nightly", "miri", "run", "--offline", "--bin", "lruverif", "--features", "noarena", "--target-dir", target_dir("miri"), "--", "noop"]
             env = dict(ENV_BASE, MIRIFLAGS=MIRI_FLAGS)
         else:
             args, extra, _ = MODES[mode]
@@ -395,9 +395,9 @@ def finish(prop, tier, seed, t0, cov, violations, known_hits, reason, results):
 
 def relevant_counter(prop, name):
     pref = {"C03": ("multi", "exact", "one_over", "replace", "grow_the", "limit_"), "C04": ("lookup_", "const_hasher", "max_len", "reallocations", "tomb"),
-            "C05": ("promote_", "debug_", "order_", "reallocations"), "C10": ("c10_",), "C11": ("c11_",), "C12": ("c12_",), "C13": ("c13_", "reallocations", "churn"),
+            "C05": ("promote_", "debug_", "order_", "reallocations", "interleav"), "C10": ("c10_",), "C11": ("c11_",), "C12": ("c12_",), "C13": ("c13_", "reallocations", "churn", "interleav"),
             "C14": ("c14_",), "C15": ("c15_",), "C20": ("c20_",), "C01": ("exact", "one_over", "limit_", "grow_the", "multi", "c01_", "extreme"),
-            "C02": ("replacements", "c11_class", "c02_", "multi", "reallocations", "extreme"), "C07": ("reallocations", "max_len", "c07_"), "C06": ("c06_", "c12_dropped"),
+            "C02": ("replacements", "c11_class", "c02_", "multi", "reallocations", "extreme"), "C07": ("reallocations", "max_len", "c07_", "interleav"), "C06": ("c06_", "c12_dropped"),
             "C16": ("c16_",), "C17": ("c17_",), "C08": ("c08_",), "C09": ("c09_",), "C18": ("c18_",), "C19": ("c19_",)}
     return name.startswith(pref.get(prop, ()))
 
